@@ -410,3 +410,24 @@ Definition total_memory (e : mem_env) : option Z :=
 
 (* NewDefaultConfig(): everything zero except MinGCIntervalWhenSoftLimited = 10 s *)
 Definition default_config : config := mkConfig 0 10000000000 0 0 0 0 0.
+
+(* ---- the contexts given to Start / Shutdown -----------------------------------------------------
+   func (ml *MemoryLimiter) Start(_ context.Context, _ component.Host) and Shutdown(context.Context)
+   do not look at their context: it is only valid for the call (the collector cancels or lets
+   expire start-up contexts afterwards).  [CCtxEnd i] = the context given to an earlier Start ends
+   (cancelled / deadline passed): nothing happens to the limiter. *)
+Inductive cop := CStart (ctx : nat) | CShutdown | CCtxEnd (ctx : nat).
+
+Definition cstep (s : life) (o : cop) : life * bool :=
+  match o with
+  | CStart _ => life_step s LStart
+  | CShutdown => life_step s LShutdown
+  | CCtxEnd _ => (s, false)
+  end.
+
+Fixpoint crun (s : life) (os : list cop) : life * list bool :=
+  match os with
+  | [] => (s, [])
+  | o :: os' => let '(s1, e) := cstep s o in
+                let '(s2, es) := crun s1 os' in (s2, e :: es)
+  end.
